@@ -1410,6 +1410,11 @@ def _weigh_conds(tests, atoms, exclude=()):
     return None
 
 
+def foreign_nonborder(foreign):
+    """conditions of the border store that are about neither the singular vertex nor the existence of a border (those were skipped before)"""
+    return [(e, p) for e, p in foreign]
+
+
 def _none_selector(F, e, p, at):
     """`x is None` / `x is not None` where x = (A if t else None) with A a non-None value: the atom is the test t itself"""
     if isinstance(e, ast.Compare) and len(e.ops) == 1 and isinstance(e.ops[0], (ast.Is, ast.IsNot)) and hr.is_none(e.comparators[0]) \
@@ -1518,7 +1523,33 @@ def k1_spanning_tree_no_features(ctx):
             self_tests = [e_ for e_, p_ in bad if isinstance(e_, ast.Compare) and isinstance(e_.ops[0], (ast.In, ast.NotIn)) and
                           any(isinstance(n_, ast.Name) and F.root(n_.id, st) == D for n_ in ast.walk(e_.comparators[0]))]
             flag_tests = [e_ for e_, p_ in bad if hr.flag_test(e_, p_) is not None]
-            if bad and (n_border_stores > 1 or self_tests or len(flag_tests) == len(bad)):
+            # the candidate is skipped exactly for the singular vertices that lie on the border: `a not in <boundary vertices>` / `not is_vertex_on_border(a)`
+            skip_on_border = []
+            for e_, p_ in bad:
+                er_ = F.resolve(e_, st, keep=tuple(lvars) + ("self",))
+                for x_, q_ in ((e_, p_), (er_, p_)):
+                    while isinstance(x_, ast.UnaryOp) and isinstance(x_.op, ast.Not):
+                        x_, q_ = x_.operand, not q_
+                    if isinstance(x_, ast.Compare) and len(x_.ops) == 1 and isinstance(x_.ops[0], (ast.In, ast.NotIn)) and isinstance(x_.left, ast.Name) \
+                            and x_.left.id in lvars:
+                        rhs_ = F.resolve(x_.comparators[0], st, keep=("self",))
+                        if isinstance(rhs_, ast.Name) and F.definition(rhs_.id, st) is not None:
+                            rhs_ = F.definition(rhs_.id, st)
+                        inside_ = isinstance(x_.ops[0], ast.In) == q_
+                        if any(isinstance(n_, ast.Attribute) and n_.attr == "boundary_vertices" for n_ in ast.walk(rhs_)) and not inside_:
+                            skip_on_border.append(e_)
+                            break
+                    if isinstance(x_, ast.Call) and au.call_tail(x_) == "is_vertex_on_border" and len(x_.args) == 1 and isinstance(x_.args[0], ast.Name) \
+                            and x_.args[0].id in lvars and not q_:
+                        skip_on_border.append(e_)
+                        break
+            n_unions = len([c_ for c_ in au.calls(fn) if isinstance(c_.func, ast.Attribute) and c_.func.attr == "union"])
+            if bad and len(skip_on_border) == len(bad) and n_border_stores == 1 and not self_tests and not foreign_nonborder(foreign) and okk and n_unions <= 1:
+                ctx.fail(R, S(st), "the link to the border is not recorded for a singular vertex that lies on the border",
+                         "every singular vertex needs its candidate link to the border whenever the mesh has one, the zero-length link of a border vertex "
+                         "included: without it Kruskal never joins that vertex to the BORDER node and links it to the border a second time through "
+                         "another singular vertex (the cut closes a loop)")
+            elif bad and (n_border_stores > 1 or self_tests or len(flag_tests) == len(bad)):
                 ctx.undecided(R, S(st), "the border candidate is recorded on several branches / under a test on the candidate table itself", "")
             elif not bad and not foreign and okk:
                 ctx.ok(R, S(st), "(BORDER, a) candidate for every singularity")
@@ -1533,6 +1564,10 @@ def k1_spanning_tree_no_features(ctx):
             n_pair += 1
             conds = [(e, p) for e, p in conds if not (isinstance(e, ast.Compare) and len(e.ops) == 1 and isinstance(e.ops[0], ast.Eq) and not p
                                                       and isinstance(e.left, ast.Name) and isinstance(e.comparators[0], ast.Name))]
+            # `if targets:` around the search: with no target left there is no pair to record
+            targs_ = {au.src(a_) for c_ in au.calls(fn) if au.call_tail(c_) == "shortest_path" and len(c_.args) >= 3 for a_ in [c_.args[2]]}
+            conds = [(e, p) for e, p in conds if not (p and isinstance(e, ast.Name) and e.id in targs_)
+                     and not (p and isinstance(e, ast.Call) and au.call_tail(e) == "len" and len(e.args) == 1 and au.src(e.args[0]) in targs_)]
             if conds:
                 ctx.undecided(R, S(st), "a candidate path between two singular vertices is recorded under a condition the rule does not recognise", "")
             elif False:
